@@ -30,8 +30,14 @@ fn c15e_convert_root_preserves_content() {
     root.portal_references.push(WmoPortalReference { portal_index: kani::any(), group_index: kani::any(), side: kani::any() });
     root.lights.push(any_light());
     root.doodad_defs.push(any_doodad());
-    let has_sky: bool = kani::any();
-    if has_sky { root.skybox = Some(String::from("s")); }
+    // well-formed input: a skybox only exists from WotLK on, and HAS_SKYBOX is set exactly when there is one
+    let has_sky: bool = kani::any::<bool>() && from >= WmoVersion::Wotlk;
+    if has_sky {
+        root.skybox = Some(String::from("s"));
+        root.header.flags |= WmoFlags::HAS_SKYBOX;
+    } else {
+        root.header.flags &= !WmoFlags::HAS_SKYBOX;
+    }
     let m0 = root.materials[0].clone();
     let h0 = root.header.clone();
     let l0 = root.lights[0].clone();
@@ -40,7 +46,7 @@ fn c15e_convert_root_preserves_content() {
     let r = WmoConverter::new().convert_root(&mut root, to);
     assert!(r.is_ok(), "conversion between two supported versions fails");
     kani::cover!(from == WmoVersion::Mop && to == WmoVersion::Classic);
-    kani::cover!(from == WmoVersion::Classic && to == WmoVersion::Wotlk && has_sky);
+    kani::cover!(from == WmoVersion::Cataclysm && to == WmoVersion::Tbc && has_sky);
     assert!(root.version == to, "convert_root does not set the target version");
     assert!(root.materials.len() == 1 && root.portal_references.len() == 1 && root.lights.len() == 1 && root.doodad_defs.len() == 1
         && root.groups.len() == 0 && root.textures.len() == 0, "conversion changed the length of a list");
